@@ -82,7 +82,9 @@ func hC01Flat(minN, maxN, maxDim, maxOps int, fullFilter, withAdd, plain bool) {
 	} else if fullFilter {
 		filt = vFilter(ids, 77)
 	} else {
-		switch vChoose("filt", 5) {
+		switch vChoose("filt", 6) {
+		case 5: // an unsorted list whose span equals its length: (5, 9, 7) — not a contiguous run
+			filt = []uint32{ids[0], ids[len(ids)-1], ids[0] + 2}
 		case 1:
 			filt = []uint32{77}
 		case 2:
